@@ -51,7 +51,9 @@ fn run_bin_once(bin: &str, cwd: &Path, args: &[&str], limit_secs: u64) -> BinOut
             .env("OLDPWD", "/tmp")
             .env("HOME", "/nonexistent")
             .stdin(std::process::Stdio::null())
-            .stdout(std::process::Stdio::piped())
+            // what the program prints is not part of any property: stdout is discarded, stderr is drained by a thread
+            // (a program that prints a lot must not block on a full pipe)
+            .stdout(std::process::Stdio::null())
             .stderr(std::process::Stdio::piped())
             .spawn()
         {
@@ -66,15 +68,33 @@ fn run_bin_once(bin: &str, cwd: &Path, args: &[&str], limit_secs: u64) -> BinOut
             }
         }
     };
+    let reader = child.stderr.take().map(|mut e| {
+        std::thread::spawn(move || {
+            use std::io::Read;
+            let mut kept: Vec<u8> = Vec::new();
+            let mut buf = [0u8; 8192];
+            loop {
+                match e.read(&mut buf) {
+                    Ok(0) | Err(_) => break,
+                    Ok(n) => {
+                        if kept.len() < 4096 {
+                            kept.extend_from_slice(&buf[..n.min(4096 - kept.len())]);
+                        }
+                    }
+                }
+            }
+            kept
+        })
+    });
     let t0 = std::time::Instant::now();
-    loop {
+    let status = loop {
         match child.try_wait() {
-            Ok(Some(_)) => break,
+            Ok(Some(st)) => break Some(st),
             Ok(None) => {
                 if t0.elapsed().as_secs() > limit_secs {
                     let _ = child.kill();
                     let _ = child.wait();
-                    return BinOut { code: None, stderr: format!("timeout after {} s", limit_secs) };
+                    break None;
                 }
                 std::thread::sleep(std::time::Duration::from_millis(2));
             }
@@ -83,13 +103,11 @@ fn run_bin_once(bin: &str, cwd: &Path, args: &[&str], limit_secs: u64) -> BinOut
                 std::process::exit(2);
             }
         }
-    }
-    match child.wait_with_output() {
-        Ok(o) => BinOut { code: o.status.code(), stderr: String::from_utf8_lossy(&o.stderr).chars().take(400).collect() },
-        Err(e) => {
-            eprintln!("MACHINERY: collecting the output of {} failed: {}", bin, e);
-            std::process::exit(2);
-        }
+    };
+    let err_text = reader.and_then(|h| h.join().ok()).map(|b| String::from_utf8_lossy(&b).chars().take(400).collect::<String>()).unwrap_or_default();
+    match status {
+        Some(st) => BinOut { code: st.code(), stderr: err_text },
+        None => BinOut { code: None, stderr: format!("timeout after {} s", limit_secs) },
     }
 }
 
